@@ -46,6 +46,7 @@ use std::path::Path;
 use std::path::PathBuf;
 use std::sync::Arc;
 use std::sync::Mutex;
+use std::sync::OnceLock;
 use std::sync::atomic::AtomicU64;
 use std::sync::atomic::Ordering;
 
@@ -66,6 +67,7 @@ use jj_lib::ref_name::RefName;
 use jj_lib::ref_name::RemoteRefSymbol;
 use jj_lib::repo::ReadonlyRepo;
 use jj_lib::repo::Repo as _;
+use jj_lib::repo::RepoLoader;
 use jj_lib::settings::UserSettings;
 use jj_lib::workspace::Workspace;
 use pollster::FutureExt as _;
@@ -304,7 +306,6 @@ struct Obs {
 
 struct World {
     dir: PathBuf,
-    _ws: Workspace,
     repo: Arc<ReadonlyRepo>,
     /// label -> commit id (index 0 unused)
     ids: Vec<CommitId>,
@@ -319,9 +320,9 @@ fn sig(secs: i64) -> Signature {
     }
 }
 
-fn settings() -> UserSettings {
+fn settings(seed: u64) -> UserSettings {
     static CACHE: Mutex<Option<StackedConfig>> = Mutex::new(None);
-    let config = CACHE
+    let mut config = CACHE
         .lock()
         .unwrap()
         .get_or_insert_with(|| {
@@ -337,6 +338,9 @@ fn settings() -> UserSettings {
             config
         })
         .clone();
+    config.add_layer(
+        ConfigLayer::parse(ConfigSource::User, &format!("debug.randomness-seed = {seed}\n")).unwrap(),
+    );
     // a fresh RNG per world: change ids are a function of the history
     UserSettings::from_config(config).unwrap_or_else(|e| machinery_failure(&format!("settings: {e}")))
 }
@@ -352,51 +356,96 @@ fn import_options() -> GitImportOptions {
 
 static WORLD_SEQ: AtomicU64 = AtomicU64::new(0);
 
+/// The initial state (colocated workspace with c1..c3 written by jj and c4 written by git) is
+/// built once with the real API; every history starts from a byte copy of that directory,
+/// loaded through `RepoLoader` (building it afresh cost ~170 ms per history under load).
+struct Template {
+    dir: PathBuf,
+    ids: Vec<CommitId>,
+}
+
+static TEMPLATE: OnceLock<Template> = OnceLock::new();
+
+fn build_template(scratch: &Path) -> Template {
+    let dir = scratch.join("template");
+    std::fs::create_dir_all(&dir).unwrap_or_else(|e| machinery_failure(&format!("mkdir: {e}")));
+    let settings = settings(42);
+    let (_ws, repo) = Workspace::init_colocated_git(&settings, &dir, gix::hash::Kind::Sha1)
+        .block_on()
+        .unwrap_or_else(|e| machinery_failure(&format!("init_colocated_git: {e}")));
+    let mut tx = repo.start_transaction();
+    let mr = tx.repo_mut();
+    let root = mr.store().root_commit_id().clone();
+    let tree = mr.store().empty_merged_tree();
+    let mk = |mr: &mut jj_lib::repo::MutableRepo, parent: &CommitId, n: i64| {
+        mr.new_commit(vec![parent.clone()], tree.clone())
+            .set_description(format!("c{n}"))
+            .set_author(sig(1000 + n))
+            .set_committer(sig(1000 + n))
+            .write()
+            .block_on()
+            .unwrap_or_else(|e| machinery_failure(&format!("write commit: {e}")))
+    };
+    let c1 = mk(mr, &root, 1);
+    let c2 = mk(mr, c1.id(), 2);
+    let c3 = mk(mr, &root, 3);
+    tx.commit("setup")
+        .block_on()
+        .unwrap_or_else(|e| machinery_failure(&format!("setup commit: {e}")));
+    // c4: a commit only git knows about (child of c1), left unreferenced
+    let g = testutils::git::open(&dir);
+    let empty_tree = g.empty_tree().id().detach();
+    let c1_oid = gix::ObjectId::from_bytes_or_panic(c1.id().as_bytes());
+    let c4_oid = testutils::git::write_commit(&g, "refs/verif-tmp/c4", empty_tree, "c4 (git only)", &[c1_oid]);
+    g.find_reference("refs/verif-tmp/c4")
+        .unwrap_or_else(|e| machinery_failure(&format!("tmp ref: {e}")))
+        .delete()
+        .unwrap_or_else(|e| machinery_failure(&format!("tmp ref delete: {e}")));
+    let ids = vec![
+        root, // unused slot 0
+        c1.id().clone(),
+        c2.id().clone(),
+        c3.id().clone(),
+        CommitId::from_bytes(c4_oid.as_bytes()),
+    ];
+    Template { dir, ids }
+}
+
+fn copy_dir(src: &Path, dst: &Path) {
+    std::fs::create_dir_all(dst).unwrap_or_else(|e| machinery_failure(&format!("mkdir {dst:?}: {e}")));
+    let entries = std::fs::read_dir(src).unwrap_or_else(|e| machinery_failure(&format!("readdir {src:?}: {e}")));
+    for e in entries {
+        let e = e.unwrap_or_else(|e| machinery_failure(&format!("readdir: {e}")));
+        let ft = e.file_type().unwrap_or_else(|e| machinery_failure(&format!("file type: {e}")));
+        let to = dst.join(e.file_name());
+        if ft.is_dir() {
+            copy_dir(&e.path(), &to);
+        } else if ft.is_file() {
+            std::fs::copy(e.path(), &to).unwrap_or_else(|e| machinery_failure(&format!("copy: {e}")));
+        } else {
+            machinery_failure(&format!("unexpected file type in the template: {:?}", e.path()));
+        }
+    }
+}
+
 impl World {
     fn new(scratch: &Path) -> World {
+        let t = TEMPLATE.get_or_init(|| build_template(scratch));
         let dir = scratch.join(format!("w{}", WORLD_SEQ.fetch_add(1, Ordering::Relaxed)));
-        std::fs::create_dir_all(&dir).unwrap_or_else(|e| machinery_failure(&format!("mkdir: {e}")));
-        let settings = settings();
-        let (ws, repo) = Workspace::init_colocated_git(&settings, &dir, gix::hash::Kind::Sha1)
-            .block_on()
-            .unwrap_or_else(|e| machinery_failure(&format!("init_colocated_git: {e}")));
-        let mut tx = repo.start_transaction();
-        let mr = tx.repo_mut();
-        let root = mr.store().root_commit_id().clone();
-        let tree = mr.store().empty_merged_tree();
-        let mk = |mr: &mut jj_lib::repo::MutableRepo, parent: &CommitId, n: i64| {
-            mr.new_commit(vec![parent.clone()], tree.clone())
-                .set_description(format!("c{n}"))
-                .set_author(sig(1000 + n))
-                .set_committer(sig(1000 + n))
-                .write()
-                .block_on()
-                .unwrap_or_else(|e| machinery_failure(&format!("write commit: {e}")))
-        };
-        let c1 = mk(mr, &root, 1);
-        let c2 = mk(mr, c1.id(), 2);
-        let c3 = mk(mr, &root, 3);
-        let repo = tx
-            .commit("setup")
-            .block_on()
-            .unwrap_or_else(|e| machinery_failure(&format!("setup commit: {e}")));
-        // c4: a commit only git knows about (child of c1), left unreferenced
-        let g = testutils::git::open(&dir);
-        let empty_tree = g.empty_tree().id().detach();
-        let c1_oid = gix::ObjectId::from_bytes_or_panic(c1.id().as_bytes());
-        let c4_oid = testutils::git::write_commit(&g, "refs/verif-tmp/c4", empty_tree, "c4 (git only)", &[c1_oid]);
-        g.find_reference("refs/verif-tmp/c4")
-            .unwrap_or_else(|e| machinery_failure(&format!("tmp ref: {e}")))
-            .delete()
-            .unwrap_or_else(|e| machinery_failure(&format!("tmp ref delete: {e}")));
-        let ids = vec![
-            root, // unused slot 0
-            c1.id().clone(),
-            c2.id().clone(),
-            c3.id().clone(),
-            CommitId::from_bytes(c4_oid.as_bytes()),
-        ];
-        World { dir, _ws: ws, repo, ids, ghost: vec![None; NAMES.len()] }
+        copy_dir(&t.dir, &dir);
+        // another seed than the template's, so that a commit jj might create later never repeats
+        // a change id of c1..c3
+        let settings = settings(43);
+        let repo = RepoLoader::init_from_file_system(
+            &settings,
+            &dir.join(".jj").join("repo"),
+            &jj_lib::default_backend_factories::default_backend_factories(),
+        )
+        .unwrap_or_else(|e| machinery_failure(&format!("load copied repo: {e}")))
+        .load_at_head()
+        .block_on()
+        .unwrap_or_else(|e| machinery_failure(&format!("load copied repo at head: {e}")));
+        World { dir, repo, ids: t.ids.clone(), ghost: vec![None; NAMES.len()] }
     }
 
     fn label_of(&self, id: &CommitId) -> Cm {
@@ -640,10 +689,13 @@ struct Stats {
     probes_with_conflict_left: Counter,
     probes_out_of_sync_before: Counter,
     second_import_checked: Counter,
+    probe_transitions_judged: Counter,
     // bookkeeping
     k_differs_from_ghost: Counter,
     t_new_us: Counter,
     t_exec_us: Counter,
+    /// canonical states whose convergence probe has been claimed
+    probed: Mutex<HashSet<String>>,
     t_obs_us: Counter,
     r_differs_from_ghost: Counter,
     nontrivial_states: Mutex<HashSet<u64>>,
@@ -1002,8 +1054,9 @@ fn step(scratch: &Path, st: &Stats, history: &[Act]) -> Option<Outcome> {
         st.nontrivial_states.lock().unwrap().insert(vcommon::fnv(key.as_bytes()));
     }
 
-    // ---- probe: import; export; import -------------------------------------------------
-    if violations.is_empty() {
+    // ---- probe: import; export; import (a function of the state: once per state) --------
+    let first_visit = st.probed.lock().unwrap().insert(key.clone());
+    if violations.is_empty() && first_visit {
         st.probes.inc();
         if out_of_sync {
             st.probes_out_of_sync_before.inc();
@@ -1017,10 +1070,30 @@ fn step(scratch: &Path, st: &Stats, history: &[Act]) -> Option<Outcome> {
                 }
             }
         };
-        let ok = probe(&mut w, Act::Import, &mut violations).is_some()
-            && probe(&mut w, Act::Export, &mut violations).is_some();
+        // the probe's import and export are transitions like any other: judge them too
+        let mut ghost = w.ghost.clone();
+        let mut cur = obs.clone();
+        let mut ok = true;
+        for a in [Act::Import, Act::Export] {
+            match probe(&mut w, a.clone(), &mut violations) {
+                None => {
+                    ok = false;
+                    break;
+                }
+                Some(rep) => {
+                    let post = w.observe();
+                    st.probe_transitions_judged.inc();
+                    match a {
+                        Act::Import => check_import(&cur, &post, &ghost, st, &mut violations),
+                        _ => check_export(&cur, &post, &ghost, &rep, st, &mut violations),
+                    }
+                    update_ghost(&a, &post, &mut ghost);
+                    cur = post;
+                }
+            }
+        }
         if ok {
-            let synced = w.observe();
+            let synced = cur;
             let mut conflict_left = false;
             for (i, n) in NAMES.iter().enumerate() {
                 let o = &synced.names[i];
@@ -1137,23 +1210,78 @@ fn main() {
         machinery_failure("determinism gate: the same history gave two different observations");
     }
 
-    let depth = ctx.pick(4usize, 6usize);
-    let cfg = bfs::BfsConfig {
-        max_depth: depth,
-        max_states: ctx.pick(2_000_000, 20_000_000),
-        max_wall_s: ctx.pick(45.0, 840.0),
+    // Searches: thorough = one search from the empty colocated repository; quick = a shallower
+    // search from the empty repository plus searches that start after a fixed prefix (a synced
+    // bookmark, two synced bookmarks, a conflicted bookmark), so that move/move, delete/move and
+    // "conflict, then more changes" situations are inside the quick bound.  Every history of at
+    // most `depth` actions after each start is executed.
+    let plan: Vec<(Vec<&str>, usize)> = if ctx.quick() {
+        vec![
+            (vec![], 3),
+            (vec!["jj:x=c1", "export"], 3),
+            (vec!["jj:x=c1", "jj:y=c3", "export"], 2),
+            (vec!["jj:x=c2", "git:x=c3", "import"], 2),
+        ]
+    } else {
+        vec![(vec![], 6)]
     };
-    let st = bfs::search(
-        &cfg,
-        |h: &[Act]| {
-            let o = step(&scratch, &stats, h)?;
-            for (sig, msg) in &o.violations {
-                ctx.violation(sig, msg.clone(), history_json(h));
+    let wall_budget = ctx.pick(45.0, 840.0);
+    let mut st = bfs::BfsStats::default();
+    let mut per_search: Vec<Value> = vec![];
+    let mut all_complete = true;
+    for (prefix, depth) in &plan {
+        let prefix_acts: Vec<Act> = prefix.iter().map(|s| Act::parse(s).unwrap()).collect();
+        let cfg = bfs::BfsConfig {
+            max_depth: *depth,
+            max_states: 20_000_000,
+            max_wall_s: (wall_budget - ctx.elapsed_s()).max(1.0),
+        };
+        let one = bfs::search(
+            &cfg,
+            |h: &[Act]| {
+                let mut full = prefix_acts.clone();
+                full.extend_from_slice(h);
+                let o = step(&scratch, &stats, &full)?;
+                for (sig, msg) in &o.violations {
+                    ctx.violation(sig, msg.clone(), history_json(&full));
+                }
+                Some(bfs::StepResult { key: o.key, actions: o.actions })
+            },
+            |a| a.label(),
+        );
+        let complete = !one.capped && one.max_depth_completed >= *depth;
+        all_complete &= complete;
+        per_search.push(json!({
+            "start_after": prefix,
+            "depth": depth,
+            "states": one.states,
+            "transitions": one.transitions,
+            "max_depth_completed": one.max_depth_completed,
+            "capped": one.capped,
+            "invalid_histories": one.invalid,
+            "per_depth_new_states": one.per_depth_states,
+        }));
+        st.transitions += one.transitions;
+        st.invalid += one.invalid;
+        st.capped |= one.capped;
+        for (k, (n, m)) in one.per_action {
+            let e = st.per_action.entry(k).or_insert((0, 0));
+            e.0 += n;
+            e.1 += m;
+        }
+        for h in one.sample_histories {
+            if st.sample_histories.len() < 4 {
+                st.sample_histories.push(format!("after {prefix:?}: {h}"));
             }
-            Some(bfs::StepResult { key: o.key, actions: o.actions })
-        },
-        |a| a.label(),
-    );
+        }
+    }
+    // distinct canonical states over all searches
+    st.states = stats.probed.lock().unwrap().len() as u64;
+    let plan_text = plan
+        .iter()
+        .map(|(p, d)| format!("<= {d} actions after {p:?}"))
+        .collect::<Vec<_>>()
+        .join("; ");
 
     if ctx.violation_count() == 0 {
         for (label, (n, newstates)) in &st.per_action {
@@ -1184,30 +1312,29 @@ fn main() {
         evaluations: st.transitions,
         distinct_nontrivial: nontrivial,
         rule: format!(
-            "every history of <= {depth} actions out of: jj sets/deletes bookmark x|y (targets c1,c2,c3), git \
+            "every history of {plan_text} out of: jj sets/deletes bookmark x|y (targets c1,c2,c3), git \
              sets/deletes branch x|y directly in the colocated repository (targets c1,c2,c3 and the git-only commit \
              c4), import_refs, export_refs; c1<c2, c1<c4, c3 unrelated; states merged on (local bookmark, actual git \
              branch, recorded git ref, @git remote bookmark, last-synced ghost value) per name with x/y interchangeable, \
              plus which labelled commits are visible / known to jj; every history is executed once on a fresh colocated \
-             workspace, the last transition is judged, then import; export; import is run as a convergence probe; \
+             workspace, the last transition is judged, then (once per distinct state) import; export; import is run as a \
+             convergence probe; `states` = distinct canonical states over all searches; \
              non-trivial = distinct reached states in which some bookmark is conflicted or differs from its git branch"
         ),
         samples,
-        exhaustive: !st.capped && st.max_depth_completed >= depth,
+        exhaustive: all_complete,
         states: Some(st.states),
         transitions: Some(st.transitions),
         traces_validated_against_impl: Some(st.transitions),
         extra: [
-            ("depth".to_string(), json!(depth)),
-            ("max_depth_completed".to_string(), json!(st.max_depth_completed)),
+            ("searches".to_string(), json!(per_search)),
             ("capped".to_string(), json!(st.capped)),
             ("invalid_histories".to_string(), json!(st.invalid)),
-            ("per_depth_new_states".to_string(), json!(st.per_depth_states)),
             ("per_action_transitions_and_new_states".to_string(), json!(st.per_action)),
             (
                 "import_transitions".to_string(),
                 json!({
-                    "judged": stats.imports.get(),
+                    "judged_incl_probe_imports": stats.imports.get(),
                     "names_with_git_unchanged_checked_untouched": stats.import_git_unchanged_names.get(),
                     "git_only_change_propagated": stats.import_propagated.get(),
                     "git_only_deletion_propagated": stats.import_propagated_delete.get(),
@@ -1224,7 +1351,7 @@ fn main() {
             (
                 "export_transitions".to_string(),
                 json!({
-                    "judged": stats.exports.get(),
+                    "judged_incl_probe_exports": stats.exports.get(),
                     "jj_only_creation_propagated": stats.export_propagated_create.get(),
                     "jj_only_move_propagated": stats.export_propagated_move.get(),
                     "jj_only_deletion_propagated": stats.export_propagated_delete.get(),
@@ -1242,10 +1369,11 @@ fn main() {
                     "from_out_of_sync_states": stats.probes_out_of_sync_before.get(),
                     "leaving_a_conflicted_bookmark": stats.probes_with_conflict_left.get(),
                     "second_import_checked": stats.second_import_checked.get(),
+                    "probe_import_export_transitions_also_judged_by_the_transition_clauses": stats.probe_transitions_judged.get(),
                 }),
             ),
             (
-                "cpu_profile_us".to_string(),
+                "summed_thread_wall_time_us".to_string(),
                 json!({"world_init": stats.t_new_us.get(), "replayed_actions": stats.t_exec_us.get(), "observations": stats.t_obs_us.get()}),
             ),
             (
